@@ -15,6 +15,15 @@ def run(prop, tier, seed, work):
     if prop == "C05":
         import checks_malformed
         return checks_malformed.run(prop, tier, seed, work)
+    if prop == "C15":
+        import checks_depth
+        return checks_depth.run(prop, tier, seed, work)
+    if prop == "C07":
+        import checks_history
+        return checks_history.run(prop, tier, seed, work)
+    if prop == "C13":
+        import checks_reject
+        return checks_reject.run(prop, tier, seed, work)
     raise vlib.MachineryError("no check for " + prop)
 
 
